@@ -22,7 +22,10 @@ func Store.Mutate
   assumes lastWriteCarriesState == old(len(mutations) >= 1 && mutations[len(mutations) - 1] != nil && mutations[len(mutations) - 1].Table == FSMStateTable)
 
 func Store.Get
+  modifies storeGetMissed
   ensures isnil(result_1) ==> result_0 != nil
+  // (ghost bookkeeping of the answer, for C07)
+  assumes storeGetMissed == (result_1 == ErrKeyNotFound)
 func Store.GetLast
   modifies lastFound, lastKey8
   ensures isnil(result_1) ==> result_0 != nil
@@ -61,7 +64,9 @@ func ManagedStore.DeleteBackup
   modifies everything, deleteBackupCalls, lastDeletedBackup
   assumes deleteBackupCalls == old(deleteBackupCalls) + 1 && lastDeletedBackup == backupID
 func ManagedStore.GetBackupsInfo
-  modifies everything
+  modifies everything, storeListedBackups
+  // (ghost bookkeeping of the answer, for C16)
+  assumes storeListedBackups == result
 
 // C09: a state transfer replayed into the store changes it underneath whoever caches it
 func ManagedStore.LoadSnapshot
